@@ -14,7 +14,7 @@ import re
 
 from ..model import AnalysisError, dotted
 from ..pse import NORMAL, Cfg, Enumerator, walk_with_locks
-from ..threads import guarded_by, lock_aliases
+from ..threads import ThreadCfg, guarded_by, lock_aliases
 
 LEVEL_TEXT = (
     "Static analysis. Every path of DelayedQueue.put/get/remove/close is enumerated (loops summarised); lock sets are tracked "
@@ -28,8 +28,17 @@ CLS = "DelayedQueue"
 NONRAISING = {"self._queue.append", "time.time", "len", "self._queue.popleft"}
 
 
-class QCfg(Cfg):
+class QCfg(ThreadCfg):
+    """Private helpers of the queue class are inlined (the critical sections may be split over helper methods)."""
+
     freeze_locals = True
+
+    def __init__(self, P):
+        super().__init__(P, follow_attrs=False)
+
+    def consistent(self, val):
+        # the deque holds the tuples put() appends: an element of it is never None
+        return not any(v is True and re.fullmatch(r"self\._queue\[-?\d+\] is None", a) for a, v in val.items())
 
 
 def walk_body(ps):
@@ -181,7 +190,7 @@ def delay_elapsed(ctx, RD, P, gpaths, ci):
     pf = ci.methods.get("put")
     al = lock_aliases(P, CLS)
     nstamp, okst = 0, True
-    for e, held, _p in walk_with_locks(Enumerator(QCfg(P)).run(pf), lambda t: al.get(t, t)):
+    for e, held, _p in walk_with_locks(Enumerator(QCfg(P)).run(pf, selfcls=CLS), lambda t: al.get(t, t)):
         if e.kind == "call" and e.extra.get("func") == clock:
             nstamp += 1
             if held.get("self._lock", 0) <= 0:
@@ -245,7 +254,7 @@ def remove_is_exhaustive(ctx, R, P, ci, accept_shadow_counter: bool) -> None:
     rm = ci.methods.get("remove")
     if rm is None:
         raise AnalysisError("anchor vanished: DelayedQueue.remove")
-    paths = Enumerator(QCfg(P)).run(rm)
+    paths = Enumerator(QCfg(P)).run(rm, selfcls=CLS)
     n = 0
     for p in paths:
         if not (p.outcome is NORMAL or (p.outcome[0] == "return" and (p.outcome[1] is None or render_none(p.outcome[1])))):
@@ -316,7 +325,7 @@ def shadow_counter_coherent(P, ci, fld, canon):
     for m, fi in ci.methods.items():
         if m == "__init__":
             continue
-        for p in Enumerator(QCfg(P)).run(fi):
+        for p in Enumerator(QCfg(P)).run(fi, selfcls=CLS):
             ok, msg = scan(m, p, 0)
             if not ok:
                 return False, msg
@@ -328,7 +337,7 @@ def get_paths(P):
     fi = ci.methods.get("get")
     if fi is None:
         raise AnalysisError("anchor vanished: DelayedQueue.get")
-    return Enumerator(QCfg(P)).run(fi), ci
+    return Enumerator(QCfg(P)).run(fi, selfcls=CLS), ci
 
 
 def run(ctx) -> None:
@@ -363,7 +372,7 @@ def run(ctx) -> None:
     all_paths = {}
     for m in entries:
         fi = ci.methods[m]
-        paths = en.run(fi)
+        paths = en.run(fi, selfcls=CLS)
         all_paths[m] = paths
 
         # ---- balance: walk every path (loop bodies separately: the lock set at loop back must equal the one at loop entry)
